@@ -361,9 +361,11 @@ func (s *clientSocket) sendConnectPacket(authData any) {
 	go s.sendControlPacket(parser.PacketTypeConnect, v)
 }
 
-func (s *clientSocket) onPacket(header *parser.PacketHeader, eventName string, decode parser.Decode, seq uint64) {
+// release is called right before user code is entered. See Manager.onParserFinish.
+func (s *clientSocket) onPacket(header *parser.PacketHeader, eventName string, decode parser.Decode, seq uint64, release func()) {
 	switch header.Type {
 	case parser.PacketTypeConnect:
+		release()
 		s.onConnect(header, decode)
 
 	case parser.PacketTypeEvent, parser.PacketTypeBinaryEvent:
@@ -386,15 +388,17 @@ func (s *clientSocket) onPacket(header *parser.PacketHeader, eventName string, d
 		}
 
 		for _, handler := range s.eventHandlers.getAll(eventName) {
-			s.onEvent(handler, header, decode, sendAck, seq)
+			s.onEvent(handler, header, decode, sendAck, seq, release)
 		}
 	case parser.PacketTypeAck, parser.PacketTypeBinaryAck:
-		s.onAck(header, decode)
+		s.onAck(header, decode, release)
 
 	case parser.PacketTypeConnectError:
+		release()
 		s.onConnectError(header, decode)
 
 	case parser.PacketTypeDisconnect:
+		release()
 		s.onDisconnect()
 	}
 }
@@ -578,6 +582,7 @@ func (s *clientSocket) onEvent(
 	decode parser.Decode,
 	sendAck ackSendFunc,
 	seq uint64,
+	release func(),
 ) (hasAckFunc bool) {
 	// With connection state recovery enabled, the server appends the offset of the packet
 	// (a string) after the arguments of every event that carries no ack ID. Decode it
@@ -627,6 +632,7 @@ func (s *clientSocket) onEvent(
 	connected := s.state == clientSocketConnStateConnected
 	s.stateMu.RUnlock()
 	if connected {
+		release()
 		return s.callEvent(handler, header, values, sendAck)
 	} else {
 		s.receiveBufferMu.Lock()
@@ -671,7 +677,7 @@ func (s *clientSocket) callEvent(
 	return
 }
 
-func (s *clientSocket) onAck(header *parser.PacketHeader, decode parser.Decode) {
+func (s *clientSocket) onAck(header *parser.PacketHeader, decode parser.Decode, release func()) {
 	if header.ID == nil {
 		s.onError(wrapInternalError(fmt.Errorf("header.ID is nil")))
 		return
@@ -712,6 +718,7 @@ func (s *clientSocket) onAck(header *parser.PacketHeader, decode parser.Decode) 
 		return
 	}
 
+	release()
 	err = ack.call(values...)
 	if err != nil {
 		s.onError(wrapInternalError(err))
